@@ -654,9 +654,13 @@ def _r7_masked(run):
     project = run.project
     f = project.fn("toasty.pyramid.PyramidIO.write_image")
     run.note_func(f)
-    ev = sym.make_evaluator(project, "toasty.pyramid", [])
+    ev = sym.make_evaluator(project, "toasty.pyramid", [], inline_local=True)
+    ev.self_class = "toasty.pyramid.PyramidIO"          # "remove the tile file" may be a private helper of PyramidIO
+    ev.inline_resolved = True
+    ev.no_inline = ("tile_path", "save", "is_completely_masked", "make_maskable_buffer", "clear", "load_path", "read_image", "write_image", "update_image",
+                    "get_default_format", "open")
     r = ev.run(f.node)
-    unl = [e for e in r.events if e.kind == "call" and show(e.term[1]) == "os.unlink"]
+    unl = [e for e in r.events if e.kind == "call" and show(e.term[1]) in ("os.unlink", "os.remove")]
     sav = [e for e in r.events if e.kind == "call" and e.term[1][0] == "attr" and e.term[1][2] == "save"]
     image = ("sym", f.params()[2])
     masked = ("call", ("attr", image, "is_completely_masked"), (), ())
